@@ -1,7 +1,7 @@
 """C13 Hashing neither depends on nor disturbs the caller's FP environment."""
 import astq
 from rules import driver, jit, cfrcross
-from rules.C14 import rule_globals
+from rules.C14 import rule_globals, rule_globals_ast
 
 LEVEL = 'other'
 TECHNIQUE = ('dominator / post-dominator analysis on the driver CFGs (CSR and fenv builds), known-bits abstract interpretation of the control words, whole-library scan for FP-control writers'
@@ -34,5 +34,6 @@ def run(ctx, R):
     driver.rule_noleak(ctx, R)
     jit.rule_cfr_x86(ctx, R, F)
     rule_globals(ctx, R)    # the saved control word lives in the calling thread (no shared static state between concurrent hashes)
+    rule_globals_ast(ctx, R)
     cfrcross.rule_a64(ctx, R)
     cfrcross.rule_rv(ctx, R)
